@@ -285,6 +285,9 @@ def _ret_value0(run: Run, act: list, ev: Any) -> Any:
             res = sorted(getattr(run, "_last_collected", {}).get(base, []))
         elif res == "uid":
             res = base
+        elif res == "waited":
+            # the `k` of every event this invocation's wait_for_event calls returned (shows WHICH event was accepted)
+            res = list(getattr(run, "_last_waited", {}).get(base, []))
         return ET.T1(uid=7 if det else run.fresh(), k=None, result=res)
     k = act[2] if len(act) > 2 else getattr(ev, "k", None)
     return ET.mk(int(what), (base * 8 + 7) if det else run.fresh(), k)
@@ -293,6 +296,7 @@ def _ret_value0(run: Run, act: list, ev: Any) -> Any:
 async def _interp(run: Run, sdef: dict, ctx: Context, ev: Any, rn: int) -> Any:
     name = sdef["name"]
     uid = getattr(ev, "uid", 0)
+    run.__dict__.setdefault("_last_waited", {})[uid] = []  # per execution of the invocation (see "ret stop waited")
     for act in sdef["script"]:
         op = act[0]
         if op == "gate":
@@ -362,6 +366,7 @@ async def _interp(run: Run, sdef: dict, ctx: Context, ev: Any, rn: int) -> Any:
                 kw["waiter_event"] = ET.mk(wev, 500000 + uid * 10 + (int(wid[1:]) if wid else 0), None)
             try:
                 got = await ctx.wait_for_event(ET.TYPES[ty], timeout=timeout, **kw)
+                run.__dict__.setdefault("_last_waited", {}).setdefault(uid, []).append(getattr(got, "k", None))
                 run.trace.steps.append(("waited", name, uid, rn, asyncio.get_event_loop().time(),
                                         {"wid": wid, "got_uid": got.uid, "got_ty": ET.TY_ID[type(got)], "got_k": got.k,
                                          "want_ty": ty, "want_k": reqk}))
